@@ -264,6 +264,26 @@ def judge_seq(seq, acc, order):
         acc.report(violation("C07", "sequence", "C07/sequence/buffered-source-does-not-end-at-the-trailing-bytes", "stream", case,
                              JUNK_POST.hex(), rest.hex()[:100], order))
         return None
+    # the same stream as a raw (unbuffered) io.RawIOBase source that satisfies every read in full - an unbuffered
+    # file or pipe: whatever the reader does with such an object, it must leave it exactly after each message
+    raw = streams.DribbleRaw(want, step=1 << 30)
+    raw.read(len(JUNK_PRE))
+    try:
+        for n, (ws, inst) in enumerate(insts):
+            got = entity_reader(ws.cls)(raw)
+            if got != inst:
+                acc.report(violation("C07", "sequence", "C07/sequence/value-differs-on-raw-source", "stream",
+                                     dict(case, entity=n), repr(inst)[:600], repr(got)[:600], order))
+                return None
+        rest = raw.read()
+    except Exception as e:  # noqa: BLE001
+        acc.report(violation("C07", "sequence", f"C07/sequence/read-raised-on-raw-source/{exc_name(e)}", "stream", case,
+                             "all messages decode one after another", repr(e)[:300], order))
+        return None
+    if rest != JUNK_POST:
+        acc.report(violation("C07", "sequence", "C07/sequence/raw-source-does-not-end-at-the-trailing-bytes", "stream", case,
+                             JUNK_POST.hex(), (rest or b"").hex()[:100], order))
+        return None
     acc.outcome("sequence decoded in order, ends exactly at the trailing bytes")
     return hash(want)
 
